@@ -77,7 +77,22 @@ def choose(existing, requested, path):
     fired = []
     err = False
     try:
-        if path == "tor":
+        if path == "tor_cfg":
+            # a TorConfig is attached to the Tor object, and a SOCKSPort change saved through it was refused by
+            # Tor: what Tor really listens on is what counts
+            cd = TorConfig.from_protocol(proto)
+            sim.pump()
+            config = cd.result
+            config.SocksPort = ["unix:/nonexistent/dir/socks"]
+            refuse = [True]
+            sim.handlers["SETCONF"] = lambda line: (b"552 Unrecognized option: refused\r\n" if refuse[0] else setconf(line))
+            sd = config.save()
+            sd.addErrback(lambda f: None)
+            sim.pump()
+            refuse[0] = False
+            tor = txtorcon.Tor(reactor, proto, _tor_config=config)
+            d = tor._default_socks_endpoint()
+        elif path == "tor":
             tor = txtorcon.Tor(reactor, proto)
             if requested:
                 from txtorcon.endpoints import _create_socks_endpoint
